@@ -22,25 +22,25 @@ void runCase(long long i, Prng& r, const Args& a) {
   std::vector<MonS> tv = genTangent<MonS>(g, r, o, label);
   MonT t = tangentFrom<MonT>(tv);
   ref::VecL tl = toL(t.coeffs());
-  const std::string cellkey = GN() + "/" + label;
+  const std::string cellkey = GN() + "/" + label, vkey = GN() + "/" + dropLin(label);
 
   // hat: exact sum of t_i G_i (entries are copies or negations of coefficients)
   {
     ref::BigL H = toLM(t.hat()), Hr = ref::ghat(g, tl);
     double e = (double)(H - Hr).cwiseAbs().maxCoeff();
     LOG.cell("hat/" + cellkey, e);
-    if (!(e == 0)) LOG.viol("hat/" + cellkey, e, caseJ(a, i).vec("t", tv).str());
+    if (!(e == 0)) LOG.viol("hat/" + vkey, e, caseJ(a, i).vec("t", tv).str());
   }
   MonG X;
   try { X = t.exp(); }
   catch (const std::exception& e) {
     LOG.cell("exp/" + cellkey, INFINITY);
-    LOG.viol("exp-throws/" + cellkey, 1, caseJ(a, i).vec("t", tv).s("what", e.what()).str());
+    LOG.viol("exp-throws/" + vkey, 1, caseJ(a, i).vec("t", tv).s("what", e.what()).str());
     return;
   }
   if (!finiteVec(X.coeffs())) {
     LOG.cell("exp/" + cellkey, INFINITY);
-    LOG.viol("exp-nonfinite/" + cellkey, INFINITY, caseJ(a, i).vec("t", tv).vec("X", X.coeffs()).str());
+    LOG.viol("exp-nonfinite/" + vkey, INFINITY, caseJ(a, i).vec("t", tv).vec("X", X.coeffs()).str());
     return;
   }
   ref::GM M = gmOf(X), Mr = ref::gexp(g, tl);
@@ -50,11 +50,11 @@ void runCase(long long i, Prng& r, const Args& a) {
   LOG.cell("exp/" + cellkey, err, ref::gtheta(g, tl) > 0);
   LOG.maxi("exp-err/" + GN(), err);
   if (!(err <= TOL()))
-    LOG.viol("exp-matrix/" + cellkey, err, caseJ(a, i).vec("t", tv).vec("X", X.coeffs()).d("err", err).d("tol", TOL()).str());
+    LOG.viol("exp-matrix/" + vkey, err, caseJ(a, i).vec("t", tv).vec("X", X.coeffs()).d("err", err).d("tol", TOL()).str());
   // the result must be a valid element by the library's own acceptance threshold
   double nd = (double)normDev(g, X.coeffs());
   LOG.maxi("exp-normdev/" + GN(), nd);
   if (!(nd < Sc<MonS>::eps()))
-    LOG.viol("exp-invalid/" + cellkey, nd, caseJ(a, i).vec("t", tv).vec("X", X.coeffs()).d("normdev", nd).str());
+    LOG.viol("exp-invalid/" + vkey, nd, caseJ(a, i).vec("t", tv).vec("X", X.coeffs()).d("normdev", nd).str());
   if (i < 3) LOG.sample(caseJ(a, i).s("cell", label).vecd("t", tv).vecd("X", X.coeffs()).d("err", err).str());
 }
